@@ -67,6 +67,17 @@ func (sc *subscriptionCancellations) CancelAll() {
 	}
 }
 
+// CancelAndRemoveAll cancels every registered subscription and empties the registry, with the
+// lock held for the whole walk (operation goroutines call Cancel concurrently).
+func (sc *subscriptionCancellations) CancelAndRemoveAll() {
+	sc.mu.Lock()
+	defer sc.mu.Unlock()
+	for id, cancelFunc := range sc.cancellations {
+		cancelFunc()
+		delete(sc.cancellations, id)
+	}
+}
+
 func (sc *subscriptionCancellations) Len() int {
 	sc.mu.RLock()
 	defer sc.mu.RUnlock()
